@@ -73,6 +73,7 @@ type frame struct {
 	recovering bool
 	allocs []*ssa.Alloc
 	decs   map[*ssa.BasicBlock]string
+	curLine, curText string
 }
 
 // State is one symbolic path.
